@@ -341,7 +341,7 @@ func buildReport(id string, w *World, opts *RunOpts, results []*FuncResult, all 
 	solverTime := map[string]float64{}
 	solverCount := map[string]int{}
 	kinds := map[string]int{}
-	var undischarged []map[string]interface{}
+	undischarged := []map[string]interface{}{}
 	var samples []interface{}
 	violations := 0
 	feasible := map[string]int{}
@@ -372,7 +372,7 @@ func buildReport(id string, w *World, opts *RunOpts, results []*FuncResult, all 
 		}
 	}
 	// findings bookkeeping
-	var knownSeen []string
+	knownSeen := []string{}
 	for _, f := range opts.Findings {
 		if f.Kind != "known" || f.Property != id {
 			continue
@@ -445,9 +445,9 @@ func buildReport(id string, w *World, opts *RunOpts, results []*FuncResult, all 
 		rep.lines = append(rep.lines, fmt.Sprintf("  failed obligation: %s (%d of %d queries; first: %s by %s) shape[%s] %s", n.Name, len(n.Failed), len(n.Queries), q.Res.Status, q.Res.Solver, q.Shape, q.Where))
 	}
 	// undecided: contracts whose target is missing, or parts outside the subset
-	var undecided []string
+	undecided := []string{}
 	var fuc []interface{}
-	var assumptions []string
+	assumptions := []string{}
 	assumeSeen := map[string]bool{}
 	addAssume := func(s string) {
 		if !assumeSeen[s] {
